@@ -156,11 +156,69 @@ def column_pair(ctx, iso, column, factor):
         ctx.nontrivial_case(["column_pair", iso, column])
 
 
+# ---- one option family at a time: the same country run under every value of the family, in an order in which every value follows every
+# other value exactly once (an Eulerian circuit of the complete digraph on the family's values), everything else held fixed at a scenario
+# that uses every food source.  A memo keyed on "the inputs that usually differ" (country, crop inputs, ...) survives exactly such a step.
+RICH = dict(B, scenario="all_resilient_foods_and_more_area", shutoff="long_delayed_shutoff", NMONTHS=48, **NW)
+WALK_ISOS = ["ARG", "USA", "JPN", "NGA", "NZL", "IND", "FRA", "BRA"]
+FAMILY_REFS = {}
+
+
+def euler_walk(vals):
+    """a closed walk over vals that uses every ordered pair (a, b), a != b, exactly once (Hierholzer)"""
+    out = {a: [b for b in vals if b != a] for a in vals}
+    stack, walk = [vals[0]], []
+    while stack:
+        v = stack[-1]
+        if out[v]:
+            stack.append(out[v].pop(0))
+        else:
+            walk.append(stack.pop())
+    return walk[::-1]
+
+
+def family_segments(seg=10):
+    segs = []
+    for n, (fam, vals) in enumerate(sorted(model.COUNTRY_FAMILIES.items())):
+        walk = euler_walk(list(vals))
+        assert len(walk) == len(vals) * (len(vals) - 1) + 1 and len(set(zip(walk, walk[1:]))) == len(walk) - 1
+        for k in range(0, len(walk) - 1, seg):
+            segs.append((WALK_ISOS[n % len(WALK_ISOS)], fam, walk[k:k + seg + 1]))
+    return segs
+
+
+def family_walk(ctx, iso, fam, values):
+    case = dict(kind="family_walk", iso3=iso, family=fam, values=list(values))
+    prev = None
+    for v in values:
+        o = dict(RICH, **{fam: v})
+        ref = FAMILY_REFS.get((iso, fam, v))
+        if ref is None:
+            ref = FAMILY_REFS[(iso, fam, v)] = _alone_options(iso, o)
+        r = model.run_case(iso, copy.deepcopy(o), title="c14_fw_%d" % ctx.shard, capture=False)
+        ctx.event("family_walk_step")
+        if ref[0] is None or not r["ok"]:
+            if ref[0] is not None:
+                ctx.fail("run-fails-after-other-runs-although-it-completes-alone", "%s %s=%s after %s=%s" % (iso, fam, v, fam, prev), case)
+            ctx.abort("family_walk_run_does_not_complete")
+            prev = v
+            continue
+        if digest(r["result"]) != ref[0]:
+            ctx.fail("result-differs-from-the-same-run-computed-alone",
+                     "%s with %s=%s right after the same country and options with %s=%s (walk %s): digest differs from the run alone in a fresh process" %
+                     (iso, fam, v, fam, prev, values), case)
+        prev = v
+    ctx.nontrivial_case(["family_walk", iso, fam, list(values)])
+
+
 def prepare(tier):
     global REFS
     from concurrent.futures import ThreadPoolExecutor
+    keys = sorted({(iso, fam, v) for iso, fam, vals in family_segments() for v in vals})
     with ThreadPoolExecutor(max_workers=16) as ex:
         REFS = list(ex.map(_alone, range(len(POOL) + len(BATCH_ITEMS))))
+        for k, d in zip(keys, ex.map(lambda k: _alone_options(k[0], dict(RICH, **{k[1]: k[2]})), keys)):
+            FAMILY_REFS[k] = d
     bad = [i for i, (d, e) in enumerate(REFS) if d is None]
     if bad:
         raise RuntimeError("pool items do not complete alone: %r" % [(i, REFS[i][1]) for i in bad])
@@ -340,6 +398,15 @@ def shard(ctx):
             column_pair(ctx, iso, cols[rng.randint(len(cols))], [0.5, 2.0][rng.randint(2)])
         except Violation as v:
             ctx.record_violation(v)
+    # ... and every ordered pair of values of every option family back to back on the same country (see family_walk)
+    for n, (iso, fam, vals) in enumerate(family_segments()):
+        if n % ctx.nshards != ctx.shard:
+            continue
+        ctx.count()
+        try:
+            family_walk(ctx, iso, fam, vals)
+        except Violation as v:
+            ctx.record_violation(v)
     if ctx.shard < len(BATCHES) * (4 if thorough else 1):
         try:
             run_batch(ctx, ctx.shard % len(BATCHES), [["after-the-random-history-of-shard", ctx.shard]])
@@ -364,6 +431,10 @@ def replay(case, ctx, count=True):
     if case.get("kind") == "column_pair":
         ctx.count()
         column_pair(ctx, case["iso3"], case["column"], case["factor"])
+        return
+    if case.get("kind") == "family_walk":
+        ctx.count()
+        family_walk(ctx, case["iso3"], case["family"], case["values"])
         return
     if REFS is None:
         prepare(ctx.tier)
